@@ -109,14 +109,17 @@ Fixpoint trim_trail_rev (e : nat) (l : bytes) : nat * bytes :=
             end
   end.
 
+(* list reversal in linear time (List.rev is quadratic; numbers may have 2^24 digits) *)
+Definition frev (l : bytes) : bytes := rev_append l [].
+
 Definition normalise (neg : bool) (nat : bytes) (exp : Z) : res number :=
   (* trimLeadingZerosInTheIntegerPart *)
   if (exp <? 0) || (exp >? len nat) then Err 1711 else
   let nat1 := trim_lead (Z.to_nat (len nat - exp)) nat in
   (* trimTrailingZerosInTheFractionalPart *)
   if (exp <? 0) || (exp >? len nat1) then Err 1711 else
-  let '(e2, r) := trim_trail_rev (Z.to_nat exp) (rev nat1) in
-  let nat2 := rev r in
+  let '(e2, r) := trim_trail_rev (Z.to_nat exp) (frev nat1) in
+  let nat2 := frev r in
   Ok (mk_num (match nat2 with [] => false | _ => neg end) nat2 (Z.of_nat e2)).
 
 Definition nscan (value : bytes) : res number :=
